@@ -14,6 +14,13 @@ RULES = {
     'STATE-FROM-RESULT': 'accumulate.state is assigned only from the value its function returned (or the first element)',
     'FINALLY-NO-JUMP': 'no return / break / continue inside a finally block: it would discard the exception that is propagating '
                        '(a failed read would be reported as a completed one)',
+    'FAILED-VALUE-EMITTED': 'after a handler has absorbed the exception of the statement that computes a value, no emission in '
+                            'the same iteration uses that value (it is unbound, or still holds the previous element\'s result, '
+                            'and would travel with the failed element\'s metadata)',
+    'HOLD-BEFORE-FALLIBLE': 'a coroutine update() that keeps the element (retains its metadata) takes that hold before it invokes a '
+                            'user callable: a coroutine that raises hands back a failed future, the emitter\'s _emit sees a normal '
+                            'return and releases its own reference, so only the node\'s hold keeps the failed element\'s completion '
+                            'callback from firing',
 }
 FAIL_SOURCES = ('UCALL', 'EM', 'CALL', 'SELFCALL', 'SUPERCALL', 'LEAVE')
 # exception types that a key's __eq__/__hash__ or any user code may raise (as opposed to control-flow signals such as
@@ -191,3 +198,79 @@ def check_finally_no_jump(ctx, R, modules):
              '(here: a partially read batch would be processed and committed as if it were whole)' % (bad[1] if bad else ''),
              ctx.where(fn, bad[0].lineno if bad else fn.node.lineno))
     R.count('finally_blocks', n_fin)
+
+
+def check_hold_before_fallible(ctx, R, classes):
+    """see RULES['HOLD-BEFORE-FALLIBLE'].  Sites = coroutine update() methods that retain on some path and invoke a user
+    callable (directly or through a spliced helper) on some path."""
+    for cls in classes:
+        up = cls.find('update')
+        if up is None or not up.is_coro or up.cls is ctx.model.stream:
+            continue
+        paths = [st.events for st, status in ctx.paths(up, cls)]
+        if not any(e.kind == 'RET' for evs in paths for e in evs) or not any(e.kind == 'UCALL' for evs in paths for e in evs):
+            continue
+        bad, n, detail = None, 0, ''
+        for evs in paths:
+            for i, e in enumerate(evs):
+                if e.kind != 'UCALL':
+                    continue
+                n += 1
+                if not any(x.kind == 'RET' for x in evs[:i]):
+                    bad = evs
+                    detail = 'the user callable self.%s is invoked (line %d) before the element\'s metadata is retained: if it raises, ' \
+                             'the coroutine returns a failed future, the emitter releases its reference as after a normal return, and ' \
+                             'the failed element\'s completion callback fires' % (e.a, e.line)
+        R.ob('HOLD-BEFORE-FALLIBLE', ctx.construct(up), 'retain-first', bad is None, detail, ctx.where(up, up.node.lineno),
+             fmt_path(bad) if bad else None, n)
+
+
+def check_failed_value_emitted(ctx, R, classes):
+    """see RULES['FAILED-VALUE-EMITTED'].  Sites = methods with a handler that continues (does not re-raise) after an exception of
+    an assignment statement; decided on event paths (EXC -> HANDLER -> ... EM before the next iteration)."""
+    for cls in classes:
+        for mname, fn in ctx.entry_methods(cls):
+            if not any(isinstance(n, ast.Try) for n in own_nodes(fn.node)):
+                continue
+            binds = {}
+            for n in own_nodes(fn.node):
+                if isinstance(n, (ast.Assign, ast.AnnAssign, ast.AugAssign)):
+                    tg = n.targets if isinstance(n, ast.Assign) else [n.target]
+                    names = {y.id for t in tg for y in ast.walk(t) if isinstance(y, ast.Name)}
+                    for ln in range(n.lineno, (n.end_lineno or n.lineno) + 1):
+                        binds.setdefault(ln, set()).update(names)
+            if not binds:
+                continue
+            bad, n_sites, detail = None, 0, ''
+            for st, status in ctx.paths(fn, cls):
+                evs = st.events
+                for i, e in enumerate(evs):
+                    if e.kind != 'EXC' or e.depth != 0 or e.line not in binds:
+                        continue
+                    if not (i + 1 < len(evs) and evs[i + 1].kind == 'HANDLER'):
+                        continue
+                    n_sites += 1
+                    lost = set(binds[e.line])
+                    # (a handler that gives the name a fallback value has re-bound it)
+                    for t in own_nodes(fn.node):
+                        if isinstance(t, ast.Try) and any(b.lineno <= e.line <= (b.end_lineno or b.lineno) for b in t.body):
+                            for h in t.handlers:
+                                for y in ast.walk(h):
+                                    if isinstance(y, ast.Name) and isinstance(y.ctx, ast.Store):
+                                        lost.discard(y.id)
+                    for x in evs[i + 2:]:
+                        if x.depth != 0:
+                            continue
+                        if x.kind in ('ITER', 'LOOPEXIT', 'LOOPCUT', 'RAISE'):
+                            break
+                        if x.kind == 'EM':
+                            d = (x.x or {}).get('data')
+                            used = {y.id for y in ast.walk(d) if isinstance(y, ast.Name)} if d is not None else set()
+                            if used & lost:
+                                bad = evs
+                                detail = 'the statement at line %d that binds %s failed and its handler continued, yet line %d emits %s: the ' \
+                                         'value is unbound or left over from the previous element, and it is delivered with the failed ' \
+                                         'element\'s metadata' % (e.line, ', '.join(sorted(used & lost)), x.line, src(d)[:50])
+            if n_sites:
+                R.ob('FAILED-VALUE-EMITTED', ctx.construct(fn), 'emission', bad is None, detail, ctx.where(fn, fn.node.lineno),
+                     fmt_path(bad) if bad else None, n_sites)
